@@ -739,7 +739,8 @@ func (stmt *Statement) SelectAndOmitColumns(requireCreate, requireUpdate bool) (
 	}
 
 	if stmt.Schema != nil {
-		for _, field := range stmt.Schema.FieldsByName {
+		// every field: FieldsByName holds one field per Go name, and embedded structs may repeat names
+		for _, field := range stmt.Schema.Fields {
 			name := field.DBName
 			if name == "" {
 				name = field.Name
